@@ -4,6 +4,7 @@ import (
 	"fmt"
 	"strings"
 
+	"github.com/krotik/ecal/engine"
 	"github.com/krotik/ecal/engine/pool"
 	"github.com/krotik/ecal/zzverif/vsched"
 )
@@ -332,6 +333,72 @@ func init() {
 					vsched.End()
 				}
 				return body, c09Check(&s, 4)
+			}})
+	}
+}
+
+// (f) shutting down while events still arrive: an event is either refused or,
+// once accepted, processed before Finish returns (joining processes all queued
+// tasks and then leaves zero workers)
+func init() {
+	for _, w := range []int{1, 2} {
+		w := w
+		register(&Scenario{Prop: "C09", Name: fmt.Sprintf("finish-vs-addevent-w%d", w), Quick: 2, Thor: 3, FreeQuick: 2, FreeThor: 3,
+			Desc: fmt.Sprintf("processor with %d worker(s) and one rule: Finish() in one thread while another thread adds an event; an accepted event runs exactly once before Finish returns, Finish returns, zero workers are left", w),
+			Make: func() (func(), func(e *vsched.Exec) (string, *vsched.Violation)) {
+				var probs []string
+				outcome := ""
+				body := func() {
+					probs = nil
+					runs := 0
+					proc := engine.NewProcessor(w)
+					proc.AddRule(&engine.Rule{Name: "r", KindMatch: []string{"k"}, ScopeMatch: []string{},
+						Action: func(p engine.Processor, m engine.Monitor, e *engine.Event, tid uint64) error {
+							runs++
+							return nil
+						}})
+					proc.Start()
+					accepted := false
+					var wg vsched.WaitGroup
+					wg.Add(1)
+					vsched.GoNamed("adder", func() {
+						m, err := proc.AddEvent(engine.NewEvent("e", []string{"k"}, nil), nil)
+						accepted = err == nil && m != nil
+						wg.Done()
+					})
+					proc.Finish()
+					runsAtFinish := runs
+					wg.Wait()
+					queued := fmt.Sprint(proc.ThreadPool().State()["TaskQueueSize"])
+					if accepted {
+						outcome = "accepted"
+						_ = runsAtFinish
+						switch {
+						case runs == 1 && queued == "0":
+							outcome = "accepted and processed"
+						case runs == 0 && queued == "1":
+							// queued after the last worker had gone: the pool had no worker
+							// any more when the task arrived, it is kept, not dropped
+							outcome = "accepted after the pool had stopped (still queued)"
+						default:
+							probs = append(probs, fmt.Sprintf("an event accepted while the processor was finishing ran %d time(s), %s task(s) left in the queue", runs, queued))
+						}
+					} else {
+						outcome = "refused"
+						if runs != 0 {
+							probs = append(probs, "a refused event was processed")
+						}
+					}
+					if s := proc.Status(); s != "Stopped" {
+						probs = append(probs, "processor status after Finish: "+s)
+					}
+					vsched.End()
+				}
+				chk := c15Check(func() []string { return probs })
+				return body, func(e *vsched.Exec) (string, *vsched.Violation) {
+					o, v := chk(e)
+					return o + " " + outcome, v
+				}
 			}})
 	}
 }
